@@ -1759,6 +1759,148 @@ def oracle_foreach(ck, rng, n, tables):
 
 
 # =====================================================================
+# a few runs through a REAL Compiler (the runtime executes the jobs)
+# =====================================================================
+import contextlib
+import fcntl
+
+
+@contextlib.contextmanager
+def runtime_lock(max_wait):
+    """machine-wide lock: only one real BQSKit runtime at a time (fixed ports);
+    yields False when it could not be taken within max_wait seconds"""
+    f = open('/tmp/bqskit_runtime.lock', 'w')
+    t0 = time.time()
+    got = False
+    try:
+        while True:
+            try:
+                fcntl.flock(f, fcntl.LOCK_EX | fcntl.LOCK_NB)
+                got = True
+                break
+            except OSError:
+                if time.time() - t0 > max_wait:
+                    break
+                time.sleep(0.5)
+        yield got
+    finally:
+        if got:
+            fcntl.flock(f, fcntl.LOCK_UN)
+        f.close()
+
+
+def gen_runtime_case(rng, kind):
+    nq = rng.randint(2, 4)
+    g = CaseGen(rng, nq)
+    if kind == 'foreach':
+        tree = g.foreach(rng.randint(0, 1), calc=rng.random() < 0.6)
+        circ = g_circuit(rng, nq, rng.randint(2, 7), pblock=0.6)
+    elif kind == 'par':
+        ws = [g.tree(rng.randint(0, 2), True, False, allow_rt=False)
+              for _ in range(rng.randint(2, 3))]
+        tree = ('par', ws, g.cond(True), False)
+        circ = g_circuit(rng, nq, rng.randint(1, 5), pblock=0.2)
+    else:   # pick_first: branch `fast` returns at once, the others sleep
+        n = rng.randint(2, 3)
+        fast = rng.randrange(n)
+        ws = []
+        for i in range(n):
+            lid = len(g.leaves)
+            g.leaves[lid] = ([] if i == fast else [('sleep', 2.5)]) + [
+                ('push', TRACE_KEY, lid), ('put', 'winner', i),
+                ('append', g_plain_op(rng, nq, 2))]
+            ws.append(('leaf', lid))
+        tree = ('par', ws, g.cond(True), True)
+        circ = g_circuit(rng, nq, rng.randint(1, 4), pblock=0.2)
+        g.fast = fast
+    # the whole PassData preparation is the first pass of the workflow
+    init = len(g.leaves)
+    g.leaves[init] = [a for a in g_pdata(rng, nq)]
+    case = g.case(('seq', [('leaf', init), tree]), circ, [], 'runtime-' + kind)
+    case['script'] = []
+    case['arrivals'] = []
+    case['fast'] = getattr(g, 'fast', None)
+    return case
+
+
+def real_runtime_cases(ck, rng, n, tables, max_wait):
+    """returns the disagreements; ck.coverage['real_runtime'] says what ran"""
+    from bqskit.compiler import Compiler
+    cases = [gen_runtime_case(rng, ('foreach', 'par', 'pick')[i % 3])
+             for i in range(n)]
+    built = []
+    for case in cases:
+        circuit = mk_circ(case['circ'])
+        built.append((case, circuit, PassData(circuit)))
+    logf = tempfile.NamedTemporaryFile(prefix='c11log', suffix='.jsonl',
+                                       delete=False)
+    logf.close()
+    results = []
+    os.environ['C11_LOGFILE'] = logf.name
+    try:
+        with runtime_lock(max_wait) as got:
+            if not got:
+                ck.coverage['real_runtime'] = (
+                    'skipped: the machine-wide runtime lock was busy for '
+                    f'{max_wait} s')
+                return []
+            with Compiler(num_workers=2) as compiler:
+                for case, circuit, data in built:
+                    open(logf.name, 'w').close()
+                    wf = mk_tree(case['tree'], case)
+                    try:
+                        oc, od = compiler.compile(circuit.copy(), wf,
+                                                  request_data=True)
+                        out = 'ok'
+                    except Exception as e:
+                        oc, od, out = None, None, 'raised:' + type(e).__name__
+                    with open(logf.name) as f:
+                        log = [json.loads(l) for l in f if l.strip()]
+                    results.append((oc, od, out, log))
+    finally:
+        os.environ.pop('C11_LOGFILE', None)
+        os.unlink(logf.name)
+    # arrivals of pick_first cases are an input of the model: observed winner
+    for (case, circuit, data), (oc, od, out, log) in zip(built, results):
+        if case['fast'] is not None and out == 'ok':
+            w = od['winner'] if 'winner' in od else None
+            case['arrivals'] = [[w if w is not None else 0]]
+            ck.bump('pick_first_arrival',
+                    'expected' if w == case['fast'] else 'other')
+    reps = model_run(ck, built, tables)
+    bad = []
+    for (case, circuit, data), rep, (oc, od, out, log) in zip(built, reps, results):
+        ck.count((case['kind'], t_tree(case['tree']), json.dumps(case['circ'])))
+        ck.bump('outcomes', case['kind'] + ':' + ('ok' if out == 'ok' else 'raised'))
+        mo = rep['outcome']
+        d = None
+        if mo == 'ok' and out == 'ok':
+            d = se_diff(rep['st'], se_state(oc, od), 'final')
+            # every leaf execution the model has (outside cancelled / failed
+            # jobs) must be in the workers' log, with the same multiplicity
+            want = {}
+            for e in rep['trace']:
+                if e[2] == '0':
+                    want[int(e[1])] = want.get(int(e[1]), 0) + 1
+            have = {}
+            for r in log:
+                have[r['leaf']] = have.get(r['leaf'], 0) + 1
+            if d is None and case['fast'] is None and want != have:
+                d = f'leaf executions differ: model {want} workers {have}'
+            if d is None and case['fast'] is not None and any(
+                    have.get(k, 0) < v for k, v in want.items()):
+                d = f'leaf executions missing: model {want} workers {have}'
+        elif mo.startswith('err') and out.startswith('raised'):
+            pass
+        else:
+            d = f'model {mo}, real {out}'
+        if d:
+            bad.append((case, d))
+    ck.coverage['real_runtime'] = f'{len(built)} cases through Compiler(num_workers=2)'
+    return bad
+
+
+# =====================================================================
 # entry point
 # =====================================================================
 def run(ck):
@@ -1826,6 +1968,10 @@ def run(ck):
     oracle_control(ck, rng, 600 if thorough else 120)
     oracle_restore(ck, rng, 240 if thorough else 48)
     oracle_foreach(ck, rng, 600 if thorough else 100, tables)
+
+    disagreements += real_runtime_cases(
+        ck, rng, 60 if thorough else 12, tables,
+        int(os.environ.get('C11_RT_WAIT', 900 if thorough else 45)))
 
     for case, d in disagreements[:5]:
         ck.violation(
